@@ -132,7 +132,26 @@ def run(ctx):
             r4.violation("ObjectDataSource::len restores the position", "an Ok path leaves the stream at its end", loc(ln.sp))
     else:
         r4.violation("ObjectDataSource::len restores the position", "seek(End(0)) / seek(Start(current_pos)) pair not found", loc(ln.sp))
-    r4.floor(3, "length facts")
+    # what len() answers: the position seek(End(0)) reported (streams) / the buffer's own length - not a difference with the current position,
+    # which would make the announced length depend on where the stream stood when it was handed over
+    for bb, ex in ret_value_defs(ln.body, lambda ex: is_variant(ex, "Ok")):
+        pay = lsl.expand(ex)
+        pay = pay[3][0] if pay[0] == "aggr" and len(pay) > 3 and pay[3] else pay
+        while pay[0] == "cast" and pay[3] == "IntToInt" and pay[1] in ("u64", "u128", "usize"):
+            pay = pay[2]
+        txt = show(pay, 400)
+        fs = lf.facts_at(bb)
+        in_buffer = any(a[0] == "variant" and a[2] == "Buffer" and t for (a, t) in fs) or "@Buffer" in txt
+        key = "ObjectDataSource::len answers %s" % ("the buffer length" if in_buffer else "the end position")
+        if in_buffer and re.match(r"^(Vec::len|len)\(&*self@Buffer\.0\)$", txt):
+            r4.ok(key, txt, loc(ln.sp))
+        elif not in_buffer and re.match(r"^(Result::branch\()?[\w<>:, ]*::seek\(.*, SeekFrom::End\{0: 0\}\)\)?@(Continue|Ok)\.0$", txt) and \
+                not any(z[0] == "bin" for z in walk(pay)):
+            r4.ok(key, "the value seek(End(0)) returned", loc(ln.sp))
+        else:
+            r4.violation(key, "len() returns %s: the length announced for the object (transfer length, Content-Length, block partitioning) must be the "
+                              "whole size of the source, whatever the position it was handed over at" % txt[:120], loc(ln.sp))
+    r4.floor(5, "length facts")
 
 
 R1_TEXT = ("in read_block_stream every Read::read that fills the block buffer sits in a loop that continues until the buffer is full or a "
